@@ -343,6 +343,58 @@ func c01Run(c *fw.Ctx, b fw.Batch) {
 				}
 			}
 		}
+	case "huge-limit-reader":
+		// DetectReader / DetectFile with the largest limits (the reader path sizes a buffer
+		// from the limit: 2^32-1 must not wrap around). One call at a time; untouched pages
+		// of the buffer cost nothing. Counted as skipped on machines with little memory.
+		if memAvailableGiB() < 24 {
+			c.Count("huge_limit_reader_cases_skipped_low_memory", 1)
+			c.Eval(1)
+			return
+		}
+		f := filepath.Join(os.TempDir(), fmt.Sprintf("verif-c01-huge-%d.bin", os.Getpid()))
+		defer os.Remove(f)
+		for di, data := range [][]byte{seeds[0], []byte("plain text"), {}, []byte("\x89PNG\x0d\x0a\x1a\x0a\x00\x00\x00\x0dIHDR")} {
+			if c.Tier != "thorough" && di >= 3 {
+				break
+			}
+			if len(data) > 4096 {
+				data = data[:4096]
+			}
+			os.WriteFile(f, data, 0o600)
+			lims := []uint32{1<<32 - 2, 1<<32 - 1}
+			if c.Tier == "thorough" {
+				lims = []uint32{1 << 31, 1<<31 + 1, 1<<32 - 4096, 1<<32 - 2, 1<<32 - 1}
+			}
+			for li, lim := range lims {
+				for _, entry := range []string{"DetectReader", "DetectFile"} {
+					if c.Tier != "thorough" && entry == "DetectFile" && (li == 0 || len(data) == 0) {
+						continue
+					}
+					key := fw.InputKey(data, lim, entry+"/huge-limit")
+					mk := func() any {
+						return c01Case{Kind: "huge-limit-reader", In: append([]byte(nil), data...), Entry: "huge-limit-reader", InQ: fw.Quote(data, 60)}
+					}
+					c.Trace(func() (string, any) { return key, mk() })
+					c.Guard(key, mk, func() {
+						mimetype.SetLimit(lim)
+						var m *mimetype.MIME
+						if entry == "DetectFile" {
+							m, _ = mimetype.DetectFile(f)
+						} else {
+							m, _ = mimetype.DetectReader(&c01ChunkReader{b: data, r: r, mode: 4})
+						}
+						if m == nil {
+							panic("nil result with a huge limit")
+						}
+					})
+					mimetype.SetLimit(3072)
+					debug.FreeOSMemory()
+					c.Eval(1)
+					c.Count("reader_and_file_detections_with_limits_near_2^32", 1)
+				}
+			}
+		}
 	case "concurrent-limit":
 		// "never panics, never reads outside" also while another goroutine keeps changing
 		// the limit (the limit is a process-wide setting that real programs do change):
@@ -434,6 +486,7 @@ func init() {
 			bm := batches("bombs", 1, 0, 900)
 			bm[0].Env = []string{"GOMAXPROCS=1", "GOGC=off"}
 			bs = append(bs, bm...)
+			bs = append(bs, batches("huge-limit-reader", 1, 0, 900)...)
 			cl := batches("concurrent-limit", 4, 6, 900)
 			if tier == "thorough" {
 				cl = batches("concurrent-limit", 8, 120, 3000)
@@ -459,6 +512,8 @@ func init() {
 			switch k.Entry {
 			case "bomb":
 				c01Run(c, fw.Batch{Kind: "bombs"})
+			case "huge-limit-reader":
+				c01Run(c, fw.Batch{Kind: "huge-limit-reader"})
 			case "concurrent-limit":
 				fmt.Println("schedules are not deterministic: the concurrent-limit workload is re-run")
 				c01Run(c, fw.Batch{Kind: "concurrent-limit", N: 40})
